@@ -76,6 +76,7 @@ static void os_waker_loop()
         }
         waker(job.first, job.second);
         g_os_wakes++;
+        external_end();
     }
 }
 
@@ -90,6 +91,7 @@ static void launch_wakers(pair_t* p)
         bool os = p->os_waker && (w == 0 || p->rw.chance(1, 2));
         if (os)
         {
+            external_begin();
             {
                 std::lock_guard<std::mutex> l(g_osq_m);
                 g_osq.emplace_back(p, w);
